@@ -17,7 +17,8 @@ ASSUMPTIONS = [
     'reference codec vlib/ref9171.py + vlib/cborpull.py written from RFC 9171/8949, independent of cbor2 and scapy',
     'EID texts are restricted to the RFC 9171 dtn/ipn grammar; demux characters "?" and "#" are generated only in the '
     'labelled class eid_query_char',
-    'status-report reason codes are drawn from the IANA registry values 0..16',
+    'status-report reason codes are the IANA registry values 0..16 or, in the labelled class reason-unassigned, other '
+    'unsigned integers; administrative records of other types and fragments carrying a slice of a record are generated too',
 ]
 
 
@@ -81,6 +82,12 @@ def execute(case):
               'frag' if bundle['primary']['frag'] else 'whole')
     for eid in (bundle['primary']['dest'], bundle['primary']['src']):
         out.label('eid:' + (eid[0] if eid[1] != 'none' else 'none'))
+    if bundle['primary']['flags'] & ref9171.FLAG_ADMIN:
+        try:
+            rep = ref9171.parse_status_report(bundle['blocks'][-1]['data'])
+            out.label('status-report', 'reason-unassigned' if rep['reason'] > 16 else 'reason-assigned')
+        except ref9171.RefError:
+            out.label('admin-not-a-status-report' if not bundle['primary']['frag'] else 'admin-fragment-slice-or-other')
     qclass = _eid_has_query(bundle)
     if qclass:
         out.label('eid_query_char')
